@@ -104,8 +104,9 @@ C14_SPEC = dict(
     rule="[TRANSFAC] files written from random record lists (1..300 records, matrices of 1..40 rows, optional "
          "ID/AC/NA/DE, P0 symbols a permutation of all / all+wildcard / a subset, DNA and protein, integer and "
          "decimal/exponent/nan/inf/huge counts, LF or CRLF, optional VV header, with or without the final newline) by "
-         "the canonical printer (= Coq print_file, compared byte for byte; per record a random blank/tab column "
-         "separator, P0/PO, optional consensus column or trailing blanks) or by a layout-varied printer (field order, "
+         "the canonical printer (= Coq print_file, compared byte for byte; per record the lines in random order with "
+         "XX lines, BA/BS/BF/CO lines and reference blocks sprinkled in, a random blank/tab column separator, P0/PO, optional consensus column "
+         "or trailing blanks) or by a layout-varied printer (field order, "
          "XX lines, blanks/tabs, PO/P0, label styles, consensus column, references, unobserved BF/BA/BS/CC/CO/DT lines), "
          "plus the bundled tests/*.transfac and benches/prodoric.transfac (353 records); each file read through "
          "BufReader capacities 1,2,3,5,17,64,8192,1048576 and a custom BufRead with a cyclic random chunk-size pattern. "
@@ -117,15 +118,18 @@ C14_SPEC = dict(
     trusted_base=_TRUSTED,
     assumptions=[
         "TRANSFAC: reader_roundtrip (all record lists meeting the boolean wf_file, all chunkings) is proved for the "
-        "canonical layout written by TransfacPrint.print_file: optional VV header, per record AC/ID/NA/DE lines (each "
-        "followed by XX) and a matrix block (header P0 or PO, symbols in any order / any subset without repetition, "
-        "any non-empty blank/tab string per record before every symbol and count, one row per position, any one-line "
-        "UTF-8 text starting with a blank after the last count -- e.g. the consensus letter column --, XX), '//' "
-        "line, LF or CRLF, last '//' with or without line ending; counts = any token that nom's float parser "
-        "accepts entirely (digits, fraction, exponent, sign, nan, inf), row labels = anything nom's u32 accepts, field "
-        "values = any one-line valid UTF-8 text that trim() leaves unchanged. The other layouts the reader accepts "
-        "(field order, blanks varying inside a record, RN/RX/RA/RT/RL, BF/BA/BS/CC/CO/DT lines) are "
-        "covered by the correspondence check (model = implementation, implementation = written records) only",
+        "files written by TransfacPrint.print_file: optional VV header; every record a list of lines IN ANY ORDER and "
+        "number -- AC/ID/NA/DE lines (a repeated line: the last wins), BA/BS/BF/CO lines with any one-line text, XX "
+        "lines, reference blocks (RN [n] with optional '; xref.', then any RX PUBMED / RA / RT / RL lines: number, "
+        "cross reference and the last pmid / title / link of the block are returned, blocks in file order), matrix "
+        "blocks (header P0 or PO, symbols in any order / any subset without repetition, any non-empty "
+        "blank/tab string per block before every symbol and count, one row per position, any one-line UTF-8 text "
+        "starting with a blank after the last count, e.g. the consensus letter column) -- then the '//' line; LF or "
+        "CRLF; last '//' with or without line ending; counts = any token that nom's float parser accepts entirely "
+        "(digits, fraction, exponent, sign, nan, inf), row labels = anything nom's u32 accepts, AC/ID/NA/DE values = "
+        "any one-line valid UTF-8 text that trim() leaves unchanged (written after two blanks). Not in the theorem, "
+        "covered by the correspondence check (model = implementation, implementation = written records) only: "
+        "CC and DT lines, separators varying inside one matrix block, other blanks after the line code",
         "TRANSFAC: the theorems speak of count *tokens* (the matrix cell holds the token written under that symbol); "
         "the token -> f32 conversion is outside the theorem: Dec2F32.f32_of_token (exact, Flocq) is compared bit for "
         "bit with the cell the implementation produced (Rust str::parse::<f32> via nom) on every evaluated token",
